@@ -1136,7 +1136,8 @@ func (s *c07Sys) foreign(viol []mc.Violation) []mc.Violation {
 	}
 	s.count("foreign_add_for_recorded_pod__divergences_not_alarmed", int64(len(viol)))
 	for _, v := range viol {
-		if _, dup := c07DiagSeen.LoadOrStore(s.cfg.name+v.Key, true); !dup {
+		clause := strings.Join(strings.SplitN(v.Key, "|", 4)[:3], "|")
+		if _, dup := c07DiagSeen.LoadOrStore(s.cfg.name+clause, true); !dup {
 			s.res.Diag("NOT a violation (second writer): after a foreign add event carrying another allocation for an already recorded pod (skipped by isValid): " + v.Key + ": " + v.What)
 		}
 	}
